@@ -135,3 +135,62 @@ Theorem C02b_constant_not_failed : forall m banks defs mb ns1 s d0 e ctx ns2 st,
     walk banks mb ns1 st (Cursor.init_cursor banks) None = Ok (c0, p0) /\ visit banks mb (XConst s d0 e, ctx) c0 p0 = Ok (b, pos) /\
     eval code_ops (pvar2 m st ctx (Cursor.eval_address mb b pos false) false) e [] = EOk (nth s (s_sym st) VUnknown, loc).
 Proof. exact certified2_const_not_failed. Qed.
+
+(* ===== #assert directives (src/asm/resolver/assert.rs) in the Resolver2 fragment ===== *)
+(* in the state behind a successful assembly every #assert condition evaluates to TRUE, in the directive's own symbol
+   context, at the bank and position the cursor walk reaches it with *)
+Theorem C02b_assert_holds : forall indexed defs ps budget r,
+  assemble2 indexed defs ps budget = Ok r ->
+  exists m ns st1 st,
+    setup indexed defs ps = Some (m, ns, r_banks r, st1) /\ r_syms r = symbol_values m st /\
+    Certified2 m (r_banks r) defs max_bits ns st /\
+    forall ns1 e ctx ns2, ns = ns1 ++ (XAssert e, ctx) :: ns2 ->
+      exists c0 p0 b pos loc,
+        walk (r_banks r) max_bits ns1 st (Cursor.init_cursor (r_banks r)) None = Ok (c0, p0) /\
+        visit (r_banks r) max_bits (XAssert e, ctx) c0 p0 = Ok (b, pos) /\
+        eval code_ops (pvar2 m st ctx (Cursor.eval_address max_bits b pos false) false) e [] = EOk (VBool true, loc).
+Proof. exact assemble2_asserts_hold. Qed.
+
+Theorem C02b_assert_certified : forall m banks defs mb ns1 e ctx ns2 st,
+  labels_ok2 (ns1 ++ (XAssert e, ctx) :: ns2) st -> Certified2 m banks defs mb (ns1 ++ (XAssert e, ctx) :: ns2) st ->
+  exists c0 p0 b pos loc,
+    walk banks mb ns1 st (Cursor.init_cursor banks) None = Ok (c0, p0) /\ visit banks mb (XAssert e, ctx) c0 p0 = Ok (b, pos) /\
+    eval code_ops (pvar2 m st ctx (Cursor.eval_address mb b pos false) false) e [] = EOk (VBool true, loc).
+Proof. exact certified2_assert. Qed.
+
+(* a program with an assertion that is not true in ANY certified state never assembles, at any budget *)
+Theorem C02b_false_assert_never_assembles : forall indexed defs ps m ns banks st1 ns1 e ctx ns2,
+  setup indexed defs ps = Some (m, ns, banks, st1) -> ns = ns1 ++ (XAssert e, ctx) :: ns2 ->
+  (forall st c0 p0 b pos loc,
+     Certified2 m banks defs max_bits ns st ->
+     walk banks max_bits ns1 st (Cursor.init_cursor banks) None = Ok (c0, p0) ->
+     visit banks max_bits (XAssert e, ctx) c0 p0 = Ok (b, pos) ->
+     eval code_ops (pvar2 m st ctx (Cursor.eval_address max_bits b pos false) false) e [] <> EOk (VBool true, loc)) ->
+  forall budget r, assemble2 indexed defs ps budget <> Ok r.
+Proof. exact assert_false_never_assembles. Qed.
+
+Theorem C02b_unsatisfiable_assert_never_assembles : forall indexed defs ps m ns banks st1 ns1 e ctx ns2,
+  setup indexed defs ps = Some (m, ns, banks, st1) -> ns = ns1 ++ (XAssert e, ctx) :: ns2 ->
+  (forall pv loc, eval code_ops pv e [] <> EOk (VBool true, loc)) ->
+  forall budget r, assemble2 indexed defs ps budget <> Ok r.
+Proof. exact assert_unsatisfiable_never_assembles. Qed.
+
+(* non-vacuity: a true, a false, an address-dependent and an unresolvable / ill-typed condition *)
+Example C02b_assert_true_nonvacuous :
+  assemble2 true [] [PData (Some 8%N) [ENum 7 None]; PAssert ex_true] 1 = Err /\
+  (exists r, assemble2 true [] [PData (Some 8%N) [ENum 7 None]; PAssert ex_true] 2 = Ok r /\ r_iters r = 2%nat) /\
+  (exists r, assemble2 true [] [PData (Some 8%N) [ENum 7 None]; PAssert ex_true] 5 = Ok r /\ r_iters r = 5%nat /\
+             r_bits r = [false; false; false; false; false; true; true; true]).
+Proof. exact assert_true_nonvacuous. Qed.
+Example C02b_assert_false_nonvacuous :
+  forallb (fun b => match assemble2 true [] [PData (Some 8%N) [ENum 7 None]; PAssert ex_false] b with Err => true | _ => false end)
+          [1; 2; 3; 4]%nat = true.
+Proof. exact assert_false_nonvacuous. Qed.
+Example C02b_assert_address_nonvacuous :
+  (exists r, assemble2 true [] (ex_assert_addr 1) 3 = Ok r /\ r_iters r = 3%nat) /\
+  assemble2 true [] (ex_assert_addr 2) 3 = Err /\ assemble2 true [] (ex_assert_addr 1) 1 = Err.
+Proof. exact assert_address_nonvacuous. Qed.
+Example C02b_assert_unresolvable_nonvacuous :
+  assemble2 true [] [PAssert (EVar 0 [[113%N]])] 3 = Err /\ assemble2 true [] [PAssert (ENum 5 None)] 3 = Err /\
+  (exists r, assemble2 true [] [PAssert ex_true] 1 = Ok r /\ r_iters r = 1%nat).
+Proof. exact assert_unresolvable_nonvacuous. Qed.
